@@ -17,6 +17,7 @@ import Ztr.Model.Streams
 import Ztr.Model.Ordered
 import Ztr.Model.Options
 import Ztr.Model.Handover
+import Ztr.Model.XmlFile
 /-!
 Line protocol between the Python harness and the executable model: one JSON object per line in,
 one JSON object per line out.  `op` selects the model component.  Unknown or malformed requests are
@@ -515,7 +516,9 @@ def opXml (j : Json) : Except String Json := do
   let suites := evs.foldl (fun ss (p : List Nat × Ztr.Xml.Case) => Ztr.Xml.record ss p.1 p.2) []
   let stime ← J.nats! j "suite_time"
   return Json.mkObj [("files", Json.arr (suites.map (fun s =>
-    Json.arr #[jNats s.name, jNats (Ztr.Xml.renderSuite s host stime stamp)])).toArray)]
+    Json.arr #[jNats s.name, jNats (Ztr.Xml.renderSuite s host stime stamp)])).toArray),
+    -- the names of the report files (Model/XmlFile), in the order of the suites
+    ("stems", Json.arr (suites.map (fun s => jNats (Ztr.XmlFile.stem s.name))).toArray)]
 
 /-- `discovery`: find_test_files + the import gate.  Predicates are given as the lists of names
 for which they hold. -/
